@@ -239,6 +239,16 @@ class GaussianMerge(Compiler):
                 if not displacement_mapping:
                     # Add edge from gaussian transform to successor operation
                     self.new_DAG.add_edge(gaussian_transform[0], successor_op)
+                else:
+                    # The successor has to wait for the displacement gates on its qumodes, or for
+                    # the gaussian transform itself if there are none
+                    placed_edge = False
+                    for qumode in get_qumodes_operated_upon(successor_op):
+                        if qumode in displacement_mapping:
+                            self.new_DAG.add_edge(displacement_mapping[qumode], successor_op)
+                            placed_edge = True
+                    if not placed_edge:
+                        self.new_DAG.add_edge(gaussian_transform[0], successor_op)
 
     def add_gaussian_pre_and_succ_gates(
         self, gaussian_transform, merged_gaussian_ops, displacement_mapping
